@@ -43,6 +43,6 @@ OBLIGATIONS = [
     ob('C05.line.uniformC', 'h_c05_line_uniform_C', [(0, 1), (1, 1), (0, 2), (1, 2)], ['uniform composition: a listed composition gets its fraction combined by the operation', 'uniform composition: replace clears the compositions it does not list', OUT, 'end'], '1..2 listed compositions', tus=TUS_LINE),
     ob('C05.line.uniformV', 'h_c05_line_uniform_V', [(0,), (1,)], ['uniform raw velocity: the configured vector combined by the operation', OUT, 'end'], 'slab and fault families', tus=TUS_LINE),
     ob('C05.plume.uniformT', 'h_c05_plume_uniform_T', [()], ['uniform temperature: the configured value combined by the declared operation', OUT, 'end'], 'all parameters', tus=TUS_LINE),
-    ob('C05.plume.gaussianT', 'h_c05_plume_gaussian_T', [(1,), (2,)], ['gaussian plume temperature: Tc * exp(-r/(2 sigma^2)) with Tc and sigma interpolated in depth (negative Tc => adiabat)', 'outside the plume the model returns the incoming value', 'end'], '1..2 depth entries (3 thorough), sigmas > 0', tus=TUS_LINE, cases_thorough=[(1,), (2,), (3,)]),
+    ob('C05.plume.gaussianT', 'h_c05_plume_gaussian_T', [(1, 0), (2, 0)], ['gaussian plume temperature: Tc * exp(-r/(2 sigma^2)) with Tc and sigma interpolated in depth (negative Tc => adiabat)', 'outside the plume the model returns the incoming value', 'end'], '1..2 depth entries (3 thorough), sigmas > 0', tus=TUS_LINE, cases_thorough=[(1, 0), (2, 0), (3, 0)]),
     ob('C05.plume.uniformC', 'h_c05_plume_uniform_C', [(1,), (2,)], ['uniform composition: a listed composition gets its fraction combined by the operation', 'uniform composition: replace clears the compositions it does not list', OUT, 'end'], '1..2 listed compositions', tus=TUS_LINE),
 ]
